@@ -1,5 +1,208 @@
-(** C10 — lemmas (filled in below). *)
-From Coq Require Import ZArith List Bool Arith Lia.
+(** C10 — histories (exact expiry), witnesses for the pre-fix code and for inputs outside the
+    overflow-free domain, non-vacuity examples.  Re-exports the other proof files. *)
+From Coq Require Import ZArith List Bool Arith Lia Permutation.
 Import ListNotations.
 Require Import Nib.Lib.Dec Nib.C10.Model Nib.C10.Spec.
+Require Export Nib.C10.ProofsMedian Nib.C10.ProofsUpdate Nib.C10.ProofsPanic Nib.C10.ProofsIrrelevant.
 Local Open Scope Z_scope.
+Local Arguments Z.mul : simpl never.
+Local Arguments Z.add : simpl never.
+Local Arguments Z.div : simpl never.
+
+(* ---------------------------------------------------------------- histories of blocks *)
+
+(** everything a block's EndBlocker reads except the ExchangeRates store *)
+Record block_in := mkBlockIn {
+  bi_validators : list valinfo; bi_maxv : nat; bi_btok : Z; bi_pr : Z;
+  bi_whitelist : list nat; bi_votes : list avote }.
+
+Definition mk_state (b : block_in) (rs : list rate_entry) : state :=
+  mkState (bi_validators b) (bi_maxv b) (bi_btok b) (bi_pr b) (bi_whitelist b) (bi_votes b) rs.
+
+(** consecutive blocks h, h+1, ...; the store is threaded through; None = a block panicked *)
+Fixpoint run (p : params) (rs : list rate_entry) (h : Z) (bs : list block_in) : option (list rate_entry) :=
+  match bs with
+  | [] => Some rs
+  | b :: bs' =>
+      match end_block true p (mk_state b rs) h with
+      | Panic => None
+      | Done rs' _ => run p rs' (h + 1) bs'
+      end
+  end.
+
+Definition no_wrap (p : params) (e : rate_entry) : Prop :=
+  0 <= r_created e /\ 0 <= p_expiration p /\ r_created e + p_expiration p < UINT64.
+
+Lemma expired_no_wrap p e h : no_wrap p e -> (expired p e h = true <-> r_created e + p_expiration p <= h).
+Proof. intros [H1 [H2 H3]]. unfold expired. rewrite Z.mod_small by lia. apply Z.leb_le. Qed.
+
+Lemma step_in p st h rs1 evs e :
+  end_block true p st h = Done rs1 evs -> ~ quorum p st (r_pair e) -> no_wrap p e ->
+  (In e rs1 <-> In e (rates st) /\ ~ (is_period_last h (p_vote_period p) = true /\ r_created e + p_expiration p <= h)).
+Proof.
+  intros Hb Hq Hn. unfold end_block in Hb. destruct (is_period_last h (p_vote_period p)).
+  - apply update_done in Hb as [He Hr]. subst rs1.
+    rewrite in_app_iff, filter_In, negb_true_iff, orb_false_iff, memb_false, valid_pairs_iff.
+    split.
+    + intros [[Hin [_ Hx]] | Hin].
+      * split; [exact Hin|]. intros [_ Hle]. apply (expired_no_wrap p e h Hn) in Hle. congruence.
+      * exfalso. apply in_map_iff in Hin as [[pr m] [E Hin]]. subst e evs. simpl in Hq.
+        apply in_map_iff in Hin as [pr' [E Hv]]. injection E as -> _. apply valid_pairs_iff in Hv. contradiction.
+    + intros [Hin Hx]. left. split; [exact Hin|]. split; [exact Hq|].
+      destruct (expired p e h) eqn:E; [|reflexivity]. exfalso. apply Hx. split; [reflexivity|].
+      apply (expired_no_wrap p e h Hn). exact E.
+  - injection Hb as <- _. split; [intro H; split; [exact H | intros [D _]; discriminate] | intros [H _]; exact H].
+Qed.
+
+Lemma run_not_in p e : forall bs rs h rs',
+  (forall b rs0, In b bs -> ~ quorum p (mk_state b rs0) (r_pair e)) -> no_wrap p e ->
+  run p rs h bs = Some rs' -> ~ In e rs -> ~ In e rs'.
+Proof.
+  induction bs as [|b bs IH]; simpl; intros rs h rs' Hq Hn Hr Hin.
+  - injection Hr as <-. exact Hin.
+  - destruct (end_block true p (mk_state b rs) h) as [|rs1 evs] eqn:E; [discriminate|].
+    apply (IH rs1 (h + 1) rs'); auto.
+    intro H1. apply (step_in p _ h rs1 evs e E (Hq b rs (or_introl eq_refl)) Hn) in H1 as [H1 _]. apply Hin. exact H1.
+Qed.
+
+(** a rate that is not refreshed stays exactly until the first vote-period end whose height is at
+    least created + ExpirationBlocks *)
+Theorem expiry_exact p e : no_wrap p e -> forall bs rs h rs',
+  (forall b rs0, In b bs -> ~ quorum p (mk_state b rs0) (r_pair e)) ->
+  run p rs h bs = Some rs' -> In e rs ->
+  (In e rs' <-> forall k, (k < length bs)%nat ->
+                          is_period_last (h + Z.of_nat k) (p_vote_period p) = true ->
+                          h + Z.of_nat k < r_created e + p_expiration p).
+Proof.
+  intro Hn. induction bs as [|b bs IH]; simpl; intros rs h rs' Hq Hr Hin.
+  - injection Hr as <-. split; [intros _ k Hk; lia | intros _; exact Hin].
+  - destruct (end_block true p (mk_state b rs) h) as [|rs1 evs] eqn:E; [discriminate|].
+    pose proof (step_in p _ h rs1 evs e E (Hq b rs (or_introl eq_refl)) Hn) as Hs. simpl in Hs.
+    assert (Hq' : forall b0 rs0, In b0 bs -> ~ quorum p (mk_state b0 rs0) (r_pair e)) by (intros; apply Hq; right; assumption).
+    destruct (is_period_last h (p_vote_period p)) eqn:Ep.
+    + destruct (Z_le_gt_dec (r_created e + p_expiration p) h) as [Hle|Hgt].
+      * (* dropped now *)
+        assert (Hout : ~ In e rs1) by (intro H1; apply Hs in H1 as [_ H1]; apply H1; split; [reflexivity | exact Hle]).
+        split.
+        -- intro H1. exfalso. apply (run_not_in p e bs rs1 (h + 1) rs' Hq' Hn Hr Hout). exact H1.
+        -- intro H1. specialize (H1 0%nat ltac:(lia)). rewrite Z.add_0_r in H1. specialize (H1 Ep). lia.
+      * assert (Hin1 : In e rs1) by (apply Hs; split; [exact Hin | intros [_ H1]; lia]).
+        rewrite (IH rs1 (h + 1) rs' Hq' Hr Hin1). split.
+        -- intros H1 k Hk Hp. destruct k as [|k]; [rewrite Z.add_0_r; lia|].
+           specialize (H1 k ltac:(lia)). replace (h + 1 + Z.of_nat k) with (h + Z.of_nat (S k)) in H1 by lia. auto.
+        -- intros H1 k Hk Hp. specialize (H1 (S k) ltac:(lia)).
+           replace (h + Z.of_nat (S k)) with (h + 1 + Z.of_nat k) in H1 by lia. auto.
+    + assert (Hin1 : In e rs1) by (apply Hs; split; [exact Hin | intros [D _]; discriminate]).
+      rewrite (IH rs1 (h + 1) rs' Hq' Hr Hin1). split.
+      * intros H1 k Hk Hp. destruct k as [|k]; [rewrite Z.add_0_r in Hp; congruence|].
+        specialize (H1 k ltac:(lia)). replace (h + 1 + Z.of_nat k) with (h + Z.of_nat (S k)) in H1 by lia. auto.
+      * intros H1 k Hk Hp. specialize (H1 (S k) ltac:(lia)).
+        replace (h + Z.of_nat (S k)) with (h + 1 + Z.of_nat k) in H1 by lia. auto.
+Qed.
+
+(* ---------------------------------------------------------------- witnesses *)
+
+Definition p_ex : params := mkParams 1 500000000000000000 1 10 20000000000000000.
+Definition five : Z := 5000000000000000000.
+
+(** F7: two validators of power 1; validator 0 votes 5.0 on pair 0, validator 1 abstains *)
+Definition st_f7 : state :=
+  mkState [mkVal 0 true 1; mkVal 1 true 1] 100 2000000 1000000 [0%nat]
+          [mkAVote 0 [(0%nat, five)]; mkAVote 1 [(0%nat, 0)]] [].
+
+Lemma f7_fixed : end_block true p_ex st_f7 4 = Done [mkRate 0 five 4] [(0%nat, five)].
+Proof. vm_compute. reflexivity. Qed.
+Lemma f7_before_fix : end_block false p_ex st_f7 4 = Done [mkRate 0 0 4] [(0%nat, 0)].
+Proof. vm_compute. reflexivity. Qed.
+Lemma f7_wf : wf st_f7.
+Proof. intros v [<-|[<-|[]]]; simpl; lia. Qed.
+Lemma f7_domain : domain p_ex st_f7 4 = true.
+Proof. vm_compute. reflexivity. Qed.
+
+(** before commit d9ae51e the abstention's rate 0 was published: the property is false of that code *)
+Theorem refuted_before_fix :
+  exists p st h, wf st /\ domain p st h = true /\ ~ P p st h (end_block false p st h).
+Proof.
+  exists p_ex, st_f7, 4. split; [exact f7_wf|]. split; [exact f7_domain|].
+  intro HP. unfold P in HP. change (is_period_last 4 (p_vote_period p_ex)) with true in HP.
+  specialize (HP f7_domain). destruct HP as [rs [evs [E [_ [H2 _]]]]].
+  rewrite f7_before_fix in E. injection E as <- <-.
+  destruct (H2 0%nat 0 (or_introl eq_refl)) as [Hm _].
+  apply is_median_b_iff in Hm. vm_compute in Hm. discriminate.
+Qed.
+
+(** ... and there the abstention did influence the outcome *)
+Theorem abstain_influence_before_fix :
+  exists p st h, wf st /\ update false p (strip st) h <> update false p st h.
+Proof. exists p_ex, st_f7, 4. split; [exact f7_wf|]. vm_compute. discriminate. Qed.
+
+(** outside the domain (current code): ExpirationBlocks close to 2^64 wraps the uint64 addition and
+    a fresh rate is dropped at once; a median close to the Dec limit, or a huge VoteThreshold, panics *)
+Definition st_one (rate : Z) (rs : list rate_entry) : state :=
+  mkState [mkVal 0 true 1] 100 1000000 1000000 [0%nat] [mkAVote 0 [(0%nat, rate)]] rs.
+
+Theorem expiry_wraps_outside_domain :
+  exists p st h e, wf st /\ In e (rates st) /\ ~ expired_at p e h /\ ~ quorum p st (r_pair e) /\
+                   end_block true p st h = Done [] [].
+Proof.
+  exists (mkParams 1 500000000000000000 1 (UINT64 - 1) 0),
+         (mkState [mkVal 0 true 1] 100 1000000 1000000 [0%nat] [] [mkRate 0 five 5]), 9, (mkRate 0 five 5).
+  split; [intros v [<-|[]]; simpl; lia|]. split; [left; reflexivity|].
+  split; [unfold expired_at; simpl; unfold UINT64; lia|].
+  split; [intros [_ [Hz _]]; apply Hz; reflexivity|]. vm_compute. reflexivity.
+Qed.
+
+Theorem tally_panics_outside_domain :
+  exists p st h, wf st /\ quorum p st 0%nat /\ end_block true p st h = Panic.
+Proof.
+  exists p_ex, (st_one DEC_LIMIT []), 4.
+  split; [intros v [<-|[]]; simpl; lia|]. split; [|vm_compute; reflexivity].
+  apply quorum_b_iff. vm_compute. reflexivity.
+Qed.
+
+Theorem threshold_panics_outside_domain :
+  exists p st h, wf st /\ end_block true p st h = Panic.
+Proof.
+  exists (mkParams 1 DEC_LIMIT 1 10 0),
+         (mkState [mkVal 0 true 2] 100 2000000 1000000 [0%nat] [mkAVote 0 [(0%nat, five)]] []), 4.
+  split; [intros v [<-|[]]; simpl; lia|]. vm_compute. reflexivity.
+Qed.
+
+(* ---------------------------------------------------------------- non-vacuity *)
+
+(** three validators of power 1, 2, 3 voting 3.0, 1.0, 2.0 on pair 0; validator 3 is unbonded and
+    votes 9.0; pair 1 is voted but not whitelisted; an old rate of pair 2 is at its expiry height *)
+Definition one : Z := 1000000000000000000.
+Definition st_ex : state :=
+  mkState [mkVal 2 true 3; mkVal 1 true 2; mkVal 0 true 1; mkVal 3 false 7] 100 6000000 1000000 [0%nat; 2%nat]
+          [mkAVote 0 [(0%nat, 3 * one); (1%nat, one)]; mkAVote 1 [(0%nat, one)]; mkAVote 2 [(0%nat, 2 * one); (2%nat, 0)];
+           mkAVote 3 [(0%nat, 9 * one)]]
+          [mkRate 2 one 0; mkRate 0 one 3].
+
+Example ex_wf : wf st_ex.
+Proof. intros v [<-|[<-|[<-|[<-|[]]]]]; simpl; lia. Qed.
+Example ex_domain : domain p_ex st_ex 10 = true.
+Proof. vm_compute. reflexivity. Qed.
+Example ex_quorum : quorum p_ex st_ex 0%nat.
+Proof. apply quorum_b_iff. vm_compute. reflexivity. Qed.
+Example ex_outcome : end_block true p_ex st_ex 10 = Done [mkRate 0 (2 * one) 10] [(0%nat, 2 * one)].
+Proof. vm_compute. reflexivity. Qed.
+Example ex_votes_nonneg_positive : nonneg (pair_votes st_ex 0) /\ 0 < total_power (pair_votes st_ex 0).
+Proof. split; [apply pair_votes_nonneg, ex_wf | vm_compute; reflexivity]. Qed.
+Example ex_sort_invariant_nonvacuous :
+  exists l l', Permutation l l' /\ sorted l /\ sorted l' /\ nonneg l /\ l <> l' /\ 0 < total_power l.
+Proof.
+  exists [mkPV one 0 1; mkPV one 1 2; mkPV (2 * one) 2 3], [mkPV one 1 2; mkPV one 0 1; mkPV (2 * one) 2 3].
+  split; [apply perm_swap|]. unfold one.
+  split; [simpl; repeat split; intros w Hw; repeat (destruct Hw as [<-|Hw]; [simpl; lia|]); destruct Hw|].
+  split; [simpl; repeat split; intros w Hw; repeat (destruct Hw as [<-|Hw]; [simpl; lia|]); destruct Hw|].
+  split; [intros v Hv; repeat (destruct Hv as [<-|Hv]; [simpl; lia|]); destruct Hv|].
+  split; [discriminate | reflexivity].
+Qed.
+Example ex_strip_changes_store : votes (strip st_ex) <> votes st_ex.
+Proof. vm_compute. discriminate. Qed.
+Example ex_expiry_nonvacuous :
+  no_wrap p_ex (mkRate 2 one 0) /\
+  run p_ex [mkRate 2 one 0] 8 [mkBlockIn [] 100 0 1000000 [2%nat] []; mkBlockIn [] 100 0 1000000 [2%nat] []] = Some [mkRate 2 one 0] /\
+  run p_ex [mkRate 2 one 0] 8 [mkBlockIn [] 100 0 1000000 [2%nat] []; mkBlockIn [] 100 0 1000000 [2%nat] []; mkBlockIn [] 100 0 1000000 [2%nat] []] = Some [].
+Proof. split; [unfold no_wrap, UINT64; simpl; lia|]. split; vm_compute; reflexivity. Qed.
